@@ -423,6 +423,54 @@ Theorem assign_int uint64 d c held v :
   (attr_set_outcome (int_validate (ic_min c) (ic_max c)) held v = Ok v <-> in_bounds d v).
 Proof. intros H. rewrite assign_validates. apply (int_accept _ _ _ _ H). Qed.
 
+(* ------------------------------------------------------------------------------------------------ declared type *)
+(* type_dispatch is the table interpreted from the converters' validate methods on every run (one representative per Python type) *)
+Theorem type_accept_sound c t r : c <> CBool ->
+  type_dispatch c t = TyAccept r -> tag_in t (type_allowed c) = true /\ r = type_result c t.
+Proof. intros Hc. destruct c; try congruence; destruct t; vm_compute; intros H; first [discriminate H | injection H as <-; split; reflexivity]. Qed.
+
+Theorem type_core_accepted c t : tag_in t (type_core c) = true -> type_dispatch c t = TyAccept (type_result c t).
+Proof. destruct c, t; vm_compute; intros H; first [discriminate H | reflexivity]. Qed.
+
+Theorem type_reject_class c t cls : type_dispatch c t = TyReject cls -> cls = TypeError \/ cls = ValueError.
+Proof. destruct c, t; vm_compute; intros H; first [discriminate H | injection H as <-; auto]. Qed.
+
+(* bool: sound only if the translated validate refuses non-bool values (flag computed from the table) *)
+Theorem type_accept_sound_bool_if_fixed t r : bool_accepts_any_type = false ->
+  type_dispatch CBool t = TyAccept r -> tag_in t (type_allowed CBool) = true /\ r = TgBool.
+Proof.
+  intros F. first [ (vm_compute in F; discriminate F)
+                  | (destruct t; vm_compute; intros H; first [discriminate H | injection H as <-; split; reflexivity]) ].
+Qed.
+
+Theorem bool_any_type_refuted : bool_accepts_any_type = true ->
+  exists t r, tag_in t (type_allowed CBool) = false /\ type_dispatch CBool t = TyAccept r.
+Proof.
+  intros F. first [ (vm_compute in F; discriminate F) | (exists TgStrText; unfold bool_accepts_any_type in F; destruct (type_dispatch CBool TgStrText) as [r|c] eqn:E; [exists r; split; [reflexivity | reflexivity] | discriminate F]) ].
+Qed.
+
+(* ------------------------------------------------------------------------------------------------ Decimal(precision, scale) *)
+Theorem dec_init_ok_iff p s : (exists r, dec_init p s = Ok r) <-> 0 < p /\ 0 < s /\ s <= p.
+Proof.
+  unfold dec_init. destruct (p <=? 0) eqn:E1, (s <=? 0) eqn:E2, (s >? p) eqn:E3; split;
+    try (intros [r H]; discriminate H); try (intros H; exfalso; lia); try (intros _; lia); try (intros _; eexists; reflexivity).
+Qed.
+
+Theorem dec_init_value p s r : dec_init p s = Ok r -> r = (p, s).
+Proof. unfold dec_init. destruct (p <=? 0), (s <=? 0), (s >? p); congruence. Qed.
+
+(* validate does not look at precision/scale at all (dec_validate has no such argument): a value with more digits than declared
+   passes whenever it passes the bounds *)
+Theorem dec_precision_not_enforced :
+  dec_exceeds_precision 5 2 (NFin 123456789 1000) /\ dec_validate None None (NFin 123456789 1000) = Ok (NFin 123456789 1000).
+Proof. split; [vm_compute; discriminate | vm_compute; reflexivity]. Qed.
+
+(* ------------------------------------------------------------------------------------------------ every entry point validates *)
+Theorem routes_validate V (validate : V -> result V) v :
+  create_outcome validate v = validate v /\ set_outcome validate v = validate v /\ get_outcome validate v = validate v
+  /\ filter_outcome validate v = validate v.
+Proof. repeat split. Qed.
+
 (* non-vacuity: size=16, min=0, max=300 is accepted as a declaration, accepts 0 and 300, rejects -1 and 301 *)
 Example c08_nonvacuous_int :
   exists c, init_of true (mk_int_decl (Some 16) (Some false) (Some 0) (Some 300)) = Ok c
